@@ -372,6 +372,50 @@ def rule_c(ctx):
             'an element taken from the queue can be delivered more than once')
 
 
+def rule_g(ctx):
+    """The awaitable adapter: the limit_rate the application passes is the initial request-n of the request it issues,
+    and the refill size of the collector it subscribes."""
+    rep = ctx.report
+    c = ctx.repo.cls('rsocket.awaitable.awaitable_rsocket:AwaitableRSocket')
+    for meth in ('request_stream', 'request_channel'):
+        f = c.methods.get(meth)
+        if f is None:
+            raise AnalysisError('C06.a: AwaitableRSocket.%s vanished' % meth)
+        if 'limit_rate' not in f.params():
+            rep.bad('C06.a', 'AwaitableRSocket.%s / limit_rate becomes the initial request-n' % meth, f,
+                    'the method has no limit_rate parameter')
+            continue
+        lim = ('param', f.qualname, 'limit_rate')
+        ok = True
+        why = ''
+        n = 0
+        for p in ctx.paths(f, c, inline_depth=1, no_inline={meth, 'initial_request_n', 'subscribe', 'run'}):
+            if p.outcome != 'return':
+                continue
+            n += 1
+            reqs = [e for e in p.events if e.kind == 'call' and e.data.get('name') == meth]
+            inits = [e for e in p.events if e.kind == 'call' and e.data.get('name') == 'initial_request_n']
+            subs = [e for e in p.events if e.kind == 'call' and e.data.get('name') == 'subscribe']
+            if len(reqs) != 1 or len(subs) != 1:
+                ok, why = False, 'the request is not issued and subscribed exactly once'
+                continue
+            req_t = strip_epoch(reqs[0].data['value'].term)
+            if len(inits) != 1 or [strip_epoch(a.term) for a in inits[0].data['args']] != [lim]:
+                ok, why = False, ('the request goes out without .initial_request_n(limit_rate): the peer is granted '
+                                  'the default 2^31-1 instead of the application\'s limit')
+                continue
+            if inits[0].data.get('recv') is None or strip_epoch(inits[0].data['recv'].term) != req_t or \
+                    inits[0].seq > subs[0].seq:
+                ok, why = False, 'initial_request_n(limit_rate) is not applied to this request before it is subscribed'
+            news = [e for e in p.events if e.kind == 'new' and e.data['cls'].name == 'CollectorSubscriber']
+            if len(news) != 1 or not news[0].data.get('args') or strip_epoch(news[0].data['args'][0].term) != lim:
+                ok, why = False, 'the collector is not created with the application\'s limit_rate'
+            elif [strip_epoch(a.term) for a in subs[0].data['args']] != [news[0].data['value'].term]:
+                ok, why = False, 'what is subscribed is not the collector created for this call'
+        rep.add('C06.a', 'AwaitableRSocket.%s / limit_rate becomes the initial request-n' % meth, f, ok and n > 0,
+                why or 'request(...).initial_request_n(limit_rate).subscribe(CollectorSubscriber(limit_rate))')
+
+
 def rule_f(ctx):
     """The library's stream source hands every credited element on, once (rules/sources.py)."""
     from .sources import rule_source, rule_small_sources
@@ -397,4 +441,4 @@ def rule_d(ctx):
     rule_gate_scope(ctx)
 
 
-RULES = [('C06.a', rule_a), ('C06.b', rule_b), ('C06.c', rule_c), ('C06.d', rule_e), ('C06.e', rule_f), ('C05.a+C05.b+C14.f', rule_d)]
+RULES = [('C06.a', rule_a), ('C06.b', rule_b), ('C06.c', rule_c), ('C06.a', rule_g), ('C06.d', rule_e), ('C06.e', rule_f), ('C05.a+C05.b+C14.f', rule_d)]
